@@ -35,9 +35,21 @@ package transport
 // whose address is passed is unconstrained (possibly nil) after the call.
 //@ trusted jsonDecode(r, val) (err)
 //@   nopanic
-// (writes the marshalled response to w; the response itself and everything else is left alone)
-//@ trusted writeJson(w, response)
+// writeJson is verified, not trusted: the body is one json.Marshal of the response it was given, written with one
+// Write to the writer it was given; the response itself and everything else is left alone. (It panics when the
+// response cannot be marshalled - data that is not valid JSON -, which is the D32 path.)
+//@ trusted (io.Writer).Write(p) (n, err)
+//@   nopanic
+//@   pure
+//@ func writeJson [C09,C12,C10,C03]
+//@   requires w != nil
+//@   safe
 //@   modifies nothing
+//@   ghost mb = nil
+//@   at! `json.Marshal(response)` requires arg0 == response
+//@   at! `json.Marshal(response)` ghost mb = callres0
+//@   at! `w.Write(b)` requires arg0 == mb && recv == w
+//@   ensures !panicked ==> calls(Write) == 1 && calls(Marshal) == 1
 //@ trusted writeJsonError(w, msg)
 //@ trusted writeJsonErrorf(w, format, args)
 //@ trusted writeJsonGraphqlError(w, err)
@@ -644,7 +656,9 @@ package transport
 //@ trusted (*wsConnection).close(closeCode, message)
 //@ trusted encoding/json.Unmarshal(data, v) (err)
 //@   modifies nothing
+// (a nil pointer marshals to `null`)
 //@ trusted encoding/json.Marshal(v) (b, err)
+//@   ensures asRef(v) == 0 ==> err == nil
 //@   pure
 //@ trusted field:github.com/99designs/gqlgen/graphql/handler/transport.Websocket.InitFunc(ctx, payload) (c, ack, err)
 //@ trusted field:github.com/99designs/gqlgen/graphql/handler/transport.Websocket.CloseFunc(ctx, code)
